@@ -10,6 +10,17 @@ inline bool known(const char* sig) {
   return k.find(std::string(",") + sig + ",") != std::string::npos;
 }
 
+// KNOWN FINDING value_copy_throw_terminates: shapes in which a throwing copy/move of the value can run inside one of the
+// internal receivers whose set_value is declared noexcept unconditionally (then std::terminate instead of set_error).
+// Determined by survey (every shape of several catalogues run with throwing copies): the shapes containing one of these adaptors.
+inline bool copy_throw_terminates_class(const ShapeDesc& sd) {
+  for (int i = 0; i < sd.nnodes; ++i) switch (sd.nodes[i].kind) {
+    case K_LET_VALUE: case K_LVW: return true;
+    default: break;
+  }
+  return false;
+}
+
 // ------------------------------------------------------------------ decode a plan for a shape
 
 inline Plan decode_plan(const ShapeDesc& sd, vk::Choice& c) {
@@ -23,7 +34,7 @@ inline Plan decode_plan(const ShapeDesc& sd, vk::Choice& c) {
     if (n.kind == K_LEAF_AI) leaf_kind[(size_t)n.a] = 1;
     if (n.kind == K_LEAF_ND) leaf_kind[(size_t)n.a] = 2;
     if (n.kind == K_LEAF || n.kind == K_LEAFV || n.kind == K_LEAF_AI || n.kind == K_LEAF_ND) { under_retry[(size_t)n.a] = under_retry[(size_t)n.a] || ur; unstoppable[(size_t)n.a] = unstoppable[(size_t)n.a] || us; embedded_src[(size_t)n.a] = embedded_src[(size_t)n.a] || es; }
-    for (int i = 0; i < n.nchild; ++i) walk(n.child[i], ur || (n.kind == K_RETRY_WHEN), us || (n.kind == K_UNSTOPPABLE), es || n.kind == K_ANY || n.kind == K_LVWSS);
+    for (int i = 0; i < n.nchild; ++i) walk(n.child[i], ur || (n.kind == K_RETRY_WHEN), us || (n.kind == K_UNSTOPPABLE), es || n.kind == K_ANY || n.kind == K_LVWSS || n.kind == K_LVWST);
   };
   walk(sd.root, false, false, false);
   // KNOWN FINDING stop_source_destroyed_in_callback: an operation that embeds its own inplace_stop_source
